@@ -45,7 +45,8 @@ UNITS = ['"y"', '"m"', '"d"', '"md"', '"ym"', '"yd"', '"Y"', '"x"']
 FORMATS = ['"yyyy"', '"0.00"', '"dd/mm/yyyy"', '"#,##0"', '"0%"', '"hh:mm"', '""', '"@"']
 DATES = ['"2020-02-29"', 'DATE(2020,2,29)', 'NOW()', '43890', '"10:30 PM"', 'TODAY()', '"March 5"', '1', '60', '61', '0.5',
          '"1900-03-01"', '"31/12/1999"']
-ARRAYS = ['{1,2,3}', '{3;1;2}', '{1,2;3,4}', '{"a","b","c"}', '{1,"a",TRUE}', 'A1:B2', 'B2:A1', '{5}', '{1,,2}', '{0.5,-1}']
+ARRAYS = ['{1,2,3}', '{3;1;2}', '{1,2;3,4}', '{"a","b","c"}', '{1,"a",TRUE}', 'A1:B2', 'B2:A1', '{5}', '{1,,2}', '{0.5,-1}',
+          '{1,2,}', '{,1,2}', '{,}', '{;;}', '{1;2;}', '{10,20,30,}', '{1,1,1}', '{3,2,1}', '{"b","a",}', '{1,2,3;4,5,}']
 
 
 def typed_arg(rng, env, pname, depth):
@@ -401,11 +402,13 @@ G5_POOL = [
     '', 'TRUE', 'FALSE', '0', '1', '-1', '2', '7', '255', '1000', '0.5', '-2.5', '1E2', '""', '"abc"', '"12"',
     '"-3.5"', '"2020-02-29"', '"a*"', '"é漢"', '"March 5"', '"y"', '#N/A', '#DIV/0!', '{1,2,3}', '{1,2;3,4}',
     '{"a","b"}', 'DATE(2020,2,29)', 'NULL', 'A1', 'B2:A1', 'v_list', 'v_nan', 'v_inf', 'v_obj', 'v_bytes',
+    '{1,2,}', 'v_blanks',
 ]
 
 G5_VARIABLES = {
     'v_list': V.L(V.I(3), V.I(1), V.I(2)), 'v_nan': V.F(float('nan')), 'v_inf': V.F(float('inf')),
     'v_obj': {'t': 'object'}, 'v_bytes': {'t': 'bytes', 'v': b'bytes'.hex()},
+    'v_blanks': V.L(V.I(10), V.I(20), V.NONE, V.NONE),
 }
 
 
@@ -455,8 +458,14 @@ class G5Sampler(object):
 
 # --- G7: long and deep inputs (budget linearity, parser stack depth) --------------------------
 def g7_long(rng, env):
-    k = rng.randrange(9)
+    k = rng.randrange(11)
     n = rng.choice([50, 200, 600, 1500]) if rng.random() < 0.3 else rng.choice([30, 60, 120])
+    if k == 9:
+        d = rng.choice([20, 100, 400, 1500, 3000])
+        return '{' * d + rng.choice(['1', '1,2', 'A1', '']) + '}' * d        # deeply nested array RESULT
+    if k == 10:
+        d = rng.choice([20, 100, 400, 1500])
+        return rng.choice(['SUM(', 'LEN(', '-', '1+']) + '{' * d + '1' + '}' * (d if rng.random() < 0.8 else d - 1) + rng.choice([')', ''])
     if k == 0:
         return '+'.join(str(rng.randrange(10)) for _ in range(n))
     if k == 1:
